@@ -500,7 +500,9 @@ func Peers() []wm.NPPeer {
 }
 
 var Ports = [][]wm.NPPort{nil, {{HasPort: true, Num: 80}}, {{HasPort: true, Name: "http"}}, {{HasPort: true, Name: "http"}, {HasPort: true, Num: 80}}, {{HasPort: true, Num: 53, Proto: "UDP"}, {HasPort: true, Name: "web"}},
-	{{HasPort: true, Name: "web", Proto: "UDP"}}} // protocol differs from the one w1 declares for "web"
+	{{HasPort: true, Name: "web", Proto: "UDP"}}, // protocol differs from the one w1 declares for "web"
+	{{Proto: "TCP"}}, // every port of a protocol (entry without port): contains, as a set of numbers, whatever a named port resolves to
+	{{HasPort: true, Name: "http"}, {Proto: "TCP"}}}
 
 func Rules() []wm.NPRule {
 	var rules []wm.NPRule
